@@ -98,6 +98,9 @@ impl TestRunnerAdapter {
                             let mut runner = thread_runner.write().unwrap();
                             match runner.execute_instruction() {
                                 Ok(result) => {
+                                    // Only the instruction the machine was stopped at is exempt from the breakpoint
+                                    // check, not every later arrival at the same address (e.g. 'loop: jmp loop')
+                                    last_checked_pc = None;
                                     // Give rest of core a chance to do something
                                     thread::sleep(Duration::from_millis(0));
 
